@@ -43,6 +43,7 @@ pub fn options_from_bits(bits: u32) -> GeneratorOptions {
 }
 
 thread_local! {
+    pub static DEFAULT_FINALIZE_DIFFERS: std::cell::Cell<bool> = std::cell::Cell::new(false);
     /// set when a generated hash fails the strict-validity / round-trip oracle (C15)
     pub static C15_FAIL: std::cell::Cell<bool> = std::cell::Cell::new(false);
 }
@@ -185,11 +186,17 @@ pub fn emit_gen(out: &mut impl Write, vi: usize, data: &[u8], pieces: &[Vec<u8>]
                 lens.push(len_str(g.processed_len()));
             }
             let res: Vec<String> = opts.iter().map(|&o| result_str(g.finalize_with_options(&options_from_bits(o)), bin_len)).collect();
-            // direct oracle: one update with the whole input
-            let mut g1 = Generator::<T>::new();
+            // direct oracle: one update with the whole input (through `Default`, the other constructor)
+            let mut g1 = <Generator<T> as Default>::default();
             g1.update(data);
             let res1: Vec<String> = opts.iter().map(|&o| result_str(g1.finalize_with_options(&options_from_bits(o)), bin_len)).collect();
             let same = res == res1 && g.processed_len() == g1.processed_len();
+            // `finalize()` is `finalize_with_options` at the default options, however those are spelt
+            let d0 = result_str(g.finalize(), bin_len);
+            let dflt = d0 == result_str(g.finalize_with_options(&GeneratorOptions::default()), bin_len)
+                && d0 == result_str(g.finalize_with_options(&GeneratorOptions::new()), bin_len)
+                && d0 == result_str(g.finalize_with_options(&options_from_bits(0)), bin_len);
+            if !dflt { DEFAULT_FINALIZE_DIFFERS.with(|c| c.set(true)); }
             (lens, res, same)
         });
         match r {
@@ -200,6 +207,9 @@ pub fn emit_gen(out: &mut impl Write, vi: usize, data: &[u8], pieces: &[Vec<u8>]
                 }
                 if !same {
                     writeln!(out, "ORACLE C03 chunked-differs-from-one-shot gen {} {} {}", vi, opts_s, pieces_str(pieces)).unwrap();
+                }
+                if DEFAULT_FINALIZE_DIFFERS.with(|c| c.replace(false)) {
+                    writeln!(out, "ORACLE C01 finalize-differs-from-finalize-with-default-options gen {} {} {}", vi, opts_s, pieces_str(pieces)).unwrap();
                 }
             }
             Err(()) => {
